@@ -163,7 +163,7 @@ def table_selftests():
     with C.Scratch("verif-self-") as d:
         p = C.run_python(["-m", "harness.workers.batching_worker"], input_json={"points": [[10, 3, 2], [7, 64, 1]], "out": str(d / "b.json")}, cwd="/verif")
         b = json.loads((d / "b.json").read_text())
-        p = C.run_python(["-m", "harness.workers.rangespace_worker"], input_json={"boxes": [[[-1, 0], [1, 2]]], "out": str(d / "r.json")}, cwd="/verif")
+        p = C.run_python(["-m", "harness.workers.rangespace_worker"], input_json={"boxes": [[[-1, 0], [1, 2]], [[0, 1], [300, 299], 7]], "out": str(d / "r.json")}, cwd="/verif")
         r = json.loads((d / "r.json").read_text())
     for o in b:
         o.pop("shape", None)
@@ -182,10 +182,15 @@ def table_selftests():
     cases = [("none", None, copy.deepcopy(r[0]))]
     t = copy.deepcopy(r[0]); t["idx"][5] += 1; cases.append(("one index off by one", "index", t))
     t = copy.deepcopy(r[0]); t["space"][0], t["space"][1] = t["space"][1], t["space"][0]; cases.append(("two space rows swapped", "space", t))
+    # a box too large to list, observed on sampled rows
+    cases.append(("none (sampled)", None, copy.deepcopy(r[1])))
+    t = copy.deepcopy(r[1]); t["space"][3][0] += 1; cases.append(("sampled: one sampled row differs", "space", t))
+    t = copy.deepcopy(r[1]); t["nrows"] -= 1; cases.append(("sampled: row count off by one", "space", t))
+    t = copy.deepcopy(r[1]); t["idx"][9] += 1; cases.append(("sampled: one index off by one", "index", t))
     acc, rej = judge("RangeSpaceTrace", [c[2] for c in cases])
     for k, (name, clause, _) in enumerate(cases):
-        if name == "none":
-            results.append({"spec": "RangeSpaceTrace", "corruption": "none", "rejected": k in rej, "as_expected": k in acc, "clause": None})
+        if name.startswith("none"):
+            results.append({"spec": "RangeSpaceTrace", "corruption": name, "rejected": k in rej, "as_expected": k in acc, "clause": None})
         else:
             record("RangeSpaceTrace", name, clause, rej, k)
     # inventory
@@ -208,8 +213,45 @@ def table_selftests():
             record("InventoryTrace", name, clause, rej, k)
 
 
+def matrices_selftest():
+    from harness import tabular as T
+    r2 = random.Random(5)
+    m1 = T.random_mdp(r2, ns=3, na=2, ne=2, PD=4, rmax=3, plain_render=True)
+    m2 = copy.deepcopy(m1)
+    m2["pk"][1][0][0] = max(0, m2["pk"][1][0][0] - 1) if m2["pk"][1][0][0] > 0 else 1      # a deviating row
+    m3 = copy.deepcopy(m1)
+    fk = [[[0, 0] for _ in range(2)] for _ in range(3)]
+    e = 0 if m3["pk"][2][1][0] > 0 else 1
+    fk[2][1][e] = -2                                                                       # deviation of 2 * 2^-41
+    jobs = [{"mdp": m1, "tol": [0, 1]}, {"mdp": m2, "tol": [1, 8192]},
+            {"mdp": m3, "tol": [0, 1], "fk": fk, "tf": 1, "K": 41},                       # 2 units > 1 unit: error
+            {"mdp": m3, "tol": [0, 1], "fk": fk, "tf": 2, "K": 41}]                       # 2 units <= 2 units: fine
+    with C.Scratch("verif-self-m-") as d:
+        p = C.run_python(["-m", "harness.workers.matrices_worker"], input_json={"jobs": jobs, "out": str(d / "m.json")}, cwd="/verif")
+        if p.returncode != 0:
+            raise C.MachineryError(p.stderr[-1500:])
+        obs = json.loads((d / "m.json").read_text())
+    names = ["exact", "deviating", "fine: 2 units over tolerance 1 unit", "fine: 2 units within tolerance 2 units"]
+    cases = [(f"none ({n})", None, copy.deepcopy(o)) for n, o in zip(names, obs)]
+    t = copy.deepcopy(obs[0]); t["P"][0][0][0] += 1; cases.append(("one transition entry +1", "transition entry", t))
+    t = copy.deepcopy(obs[0]); t["R"][1][1] += 1; cases.append(("one reward entry +1", "reward entry", t))
+    t = copy.deepcopy(obs[0]); t["unit"] = False; cases.append(("a row does not sum to one", "sum to one", t))
+    t = copy.deepcopy(obs[1]); t["outcome"] = "ok"; cases.append(("deviating row accepted silently", "no ValueError", t))
+    t = copy.deepcopy(obs[1]); t["errs"] = 1 if t["errs"] != 1 else 3; cases.append(("error names another pair", "does not name", t))
+    t = copy.deepcopy(obs[2]); t["outcome"] = "ok"; cases.append(("fine: deviation 1e-12 above the tolerance accepted", "no ValueError", t))
+    t = copy.deepcopy(obs[3]); t["outcome"] = "error"; cases.append(("fine: error although within the tolerance", "although every row", t))
+    t = copy.deepcopy(obs[2]); t["K"] = 20; cases.append(("fine: unit not negligible", "MACHINERY", t))
+    acc, rej = judge("MatricesTrace", [c[2] for c in cases])
+    for k, (name, clause, _) in enumerate(cases):
+        if name.startswith("none"):
+            results.append({"spec": "MatricesTrace", "corruption": name, "rejected": k in rej, "as_expected": k in acc, "clause": None})
+        else:
+            record("MatricesTrace", name, clause, rej, k)
+
+
 def main():
     t0 = time.time()
+    matrices_selftest()
     solver_selftest()
     pi_selftest()
     ckpt_selftest()
